@@ -275,3 +275,71 @@ def register(gen, T):
         out.append(T.footer("HlslIntrinsicTables"))
         return "".join(out)
 
+
+    @gen("HlslVecTables")
+    def hlsl_vec_tables():
+        """shape-changing forms: the Swizzle / Constructor / Cast arms of generate_expression and the Vector arm of
+        generate_type_impl (what Model/GenHlslVec.lean mirrors)"""
+        from rustsrc import ExtractError, fn_body, first_match, match_arms, enum_variants, normws
+        gen_rs = T.src("hlsl/src/ast_generate.rs")
+        expr_rs = T.src("ir/src/ir_expressions.rs")
+        out = [T.header("HlslVecTables", ["hlsl/src/ast_generate.rs", "ir/src/ir_expressions.rs"])]
+        slots = [v for v, payload in enum_variants(expr_rs, "SwizzleSlot")]
+        out.append("/-- `ir::SwizzleSlot` -/\ninductive SwizzleSlot where\n" + "".join(f"  | {v}\n" for v in slots) +
+                   "  deriving DecidableEq, Repr, Inhabited\n\n")
+        out.append("def SwizzleSlot.all : List SwizzleSlot := " + T.lean_list("." + v for v in slots) + "\n\n")
+        ebody = fn_body(gen_rs, "generate_expression")
+        _, earms, _ = first_match(ebody, r'^expr$')
+        facts = {"swizzleArmAsModelled": False, "constructorArmAsModelled": False, "castArmGeneratesItsOperand": False}
+        chars = {}
+        for pats, guard, result in match_arms(earms):
+            r = normws(result)
+            if pats == ["ir::Expression::Swizzle(expr_object, swizzle)"]:
+                # let object = generate_expression(expr_object); let member = { for channel in swizzle { match channel {…} } trivial(&member) }; Member(object, member)
+                m = re.fullmatch(
+                    r'\{ let object = generate_expression\(expr_object, context\)\?; let member = \{ let mut member = String::new\(\); '
+                    r'for channel in swizzle \{ match channel \{ (.*?),? \} \} ast::ScopedIdentifier::trivial\(&member\) \}; '
+                    r'ast::Expression::Member\(Box::new\(Located::none\(object\)\), member\) \}', r)
+                if m:
+                    ok = True
+                    for arm in [x.strip() for x in m.group(1).split(",") if x.strip()]:
+                        am = re.fullmatch(r"ir::SwizzleSlot::([A-Za-z]+) => member\.push\('([a-z])'\)", arm)
+                        if not am or am.group(1) not in slots or am.group(1) in chars:
+                            ok = False
+                            break
+                        chars[am.group(1)] = am.group(2)
+                    facts["swizzleArmAsModelled"] = ok and sorted(chars) == sorted(slots)
+            elif pats == ["ir::Expression::Constructor(type_id, args)"]:
+                facts["constructorArmAsModelled"] = bool(re.fullmatch(
+                    r'\{ let unmodified_id = context\.module\.type_registry\.remove_modifier\(\*type_id\); '
+                    r'let ty = generate_type\(unmodified_id, context\)\?; assert!\(ty\.modifiers\.modifiers\.is_empty\(\)\); '
+                    r'let name = ast::Expression::Identifier\(ty\.layout\.0\); let name = Box::new\(Located::none\(name\)\); '
+                    r'let mut ast_args = Vec::new\(\); for slot in args \{ ast_args\.push\(Located::none\(generate_expression\(&slot\.expr, context\)\?\)\); \} '
+                    r'ast::Expression::Call\(name, ty\.layout\.1\.to_vec\(\), ast_args\) \}', r))
+            elif pats == ["ir::Expression::Cast(type_id, expr)"]:
+                # the operand handed to generate_expression is the arm's own `expr` (never rebound, never looked through):
+                # exactly one generate_expression call, on `expr`, and no other binding of `expr` in the arm
+                facts["castArmGeneratesItsOperand"] = (
+                    r.count("generate_expression(") == 1 and "let inner = generate_expression(expr, context)?;" in r
+                    and not re.search(r'\blet (mut )?expr\b', r) and "while let" not in r and "inner_expr" not in r
+                    and bool(re.search(r'if !to_literal \{ let ty = generate_type_id\(\*type_id, context\)\?; '
+                                       r'ast::Expression::Cast\(Box::new\(ty\), Box::new\(Located::none\(inner\)\)\) \} else \{ inner \} \}$', r)))
+        if sorted(chars) != sorted(slots):
+            raise ExtractError(f"generate_expression: Swizzle arm does not give one letter per SwizzleSlot ({chars})")
+        out.append("/-- letter pushed for each channel by the Swizzle arm -/\ndef swizzleChar : SwizzleSlot → Char\n" +
+                   "".join(f"  | .{s} => '{chars[s]}'\n" for s in slots) + "\n")
+        # generate_type_impl: Vector arm appends the dimension to the scalar's type name
+        tbody = fn_body(gen_rs, "generate_type_impl")
+        _, tarms, _ = first_match(tbody, r'^tyl$')
+        vec_ok = False
+        for pats, guard, result in match_arms(tarms):
+            if pats == ["ir::TypeLayer::Vector(st, x)"]:
+                vec_ok = normws(result) == (
+                    '{ let (mut base, inner_declarator) = generate_type_impl(st, declarator, false, context)?; '
+                    'declarator = inner_declarator; assert!(base.layout.0.identifiers.len() == 1); '
+                    'base.layout.0.identifiers[0].node += &format!("{x}"); base }')
+        facts["vectorTypeNameAppendsDim"] = vec_ok
+        for k, v in facts.items():
+            out.append(f"def {k} : Bool := {'true' if v else 'false'}\n")
+        out.append(T.footer("HlslVecTables"))
+        return "".join(out)
